@@ -139,6 +139,15 @@ def proof_step(pid, cfg, ev):
                 res["ok"] = False
                 res["problems"].append(f"the body of `{v['fn']}` ({v['file']}) can no longer be translated ({v['status'][13:]}): "
                                        f"Generated.{k} = model function is no longer checked against the source")
+        # the same policy for the translated structure layouts, for the properties whose theorems are stated
+        # over them (those importing Lemmas/Layouts.lean): a serialize / parse body that no longer translates
+        # leaves `layout of the model = layout of the source` unchecked
+        if "JubakoModel.Lemmas.Layouts" in imported:
+            for k, st in sorted((bad or {}).items()):
+                if str(st).startswith("not-derived"):
+                    res["ok"] = False
+                    res["problems"].append(f"the layout of `{k}` can no longer be translated from its serialize / parse bodies ({str(st)[12:][:160]}): "
+                                           f"the layout theorems are no longer checked against the source")
         targets = [mod, "jbkmodel"]
         rc, out, dt = run(["lake", "build"] + targets, cwd=LEAN, timeout=3000)
         ev["lake_build_s"] = round(dt, 1)
